@@ -1020,11 +1020,11 @@ class Torrent():
             # Try to calculate infohash
             self.validate()
             try:
-                info = utils.encode_dict(self.metainfo['info'])
-            except ValueError as e:
+                info = bencode.encode(utils.encode_dict(self.metainfo['info']))
+            except (ValueError, OverflowError) as e:
                 raise error.MetainfoError(e)
             else:
-                return hashlib.sha1(bencode.encode(info)).hexdigest()
+                return hashlib.sha1(info).hexdigest()
         except error.MetainfoError as e:
             # If we can't calculate infohash, see if it was explicitly specifed.
             # This is necessary to create a Torrent from a Magnet URI.
@@ -1474,7 +1474,7 @@ class Torrent():
         """
         try:
             return utils.encode_dict(self.metainfo)
-        except ValueError as e:
+        except (ValueError, OverflowError) as e:
             raise error.MetainfoError(e)
 
     def dump(self, validate=True):
@@ -1487,7 +1487,12 @@ class Torrent():
         """
         if validate:
             self.validate()
-        return bencode.encode(self.convert())
+        metainfo = self.convert()
+        try:
+            return bencode.encode(metainfo)
+        except ValueError as e:
+            # E.g. integer with too many digits
+            raise error.MetainfoError(e)
 
     def write_stream(self, stream, validate=True):
         """
